@@ -104,6 +104,15 @@ TYPE_SPECS = [
     ("charcolon", ["character(:)", "character(len=:)"], dict(vartype="character", strlen=":")),
     ("charlenkind", ["character(len=10,kind=ck)", "character(10,ck)", "character(kind=ck,len=10)", "character(10,kind=ck)",
                      "character(len=10, kind=ck)"], dict(vartype="character", strlen="10", varkind="ck")),
+    # kind / length selectors that are expressions (function references with several arguments, operators)
+    ("realsrk", ["real(selected_real_kind(6,30))", "real(kind=selected_real_kind(6,30))", "real(kind=selected_real_kind(6, 30))",
+                 "real( selected_real_kind(6, 30) )", "real(kind = selected_real_kind(6,30))"], dict(vartype="real", varkind="selected_real_kind(6,30)")),
+    ("intexpr", ["integer(2*ck)", "integer(kind=2*ck)", "integer(kind=2 * ck)"], dict(vartype="integer", varkind="2*ck")),
+    ("charlenexpr", ["character(max(2,3))", "character(len=max(2,3))", "character(len=max(2, 3))", "character*(max(2,3))"],
+     dict(vartype="character", strlen="max(2,3)")),
+    ("charlendiv", ["character(len=dp/2)", "character(dp/2)", "character(len = dp/2)"], dict(vartype="character", strlen="dp/2")),
+    ("charlenexprkind", ["character(len=max(2,3),kind=ck)", "character(max(2,3),ck)", "character(kind=ck,len=max(2,3))",
+                         "character(max(2, 3), kind=ck)"], dict(vartype="character", strlen="max(2,3)", varkind="ck")),
     ("type", ["type(tname)", "type( tname )", "type (tname)"], dict(vartype="type", proto="tname")),
     ("class", ["class(tname)", "class (tname)"], dict(vartype="class", proto="tname")),
     ("classstar", ["class(*)"], dict(vartype="class", proto="*")),
